@@ -26,6 +26,7 @@ _COMMON = dict(
     sim_unit='update rounds',
     components=dict(real=['pysph/base/*_nnps.pyx, nnps_base.pyx (NNPS, NeighborCache), octree.pyx (compiled)',
                           'pysph/base/particle_array.pyx', 'real OpenMP threads for find_all_neighbors (static schedule: assignment is a function of the thread count)'],
+                    simulated=['thread id of lazy cache fills (hook H2), drawn per query'],
                     fake=[], model=['brute-force neighbour oracle in Python floats', 'record multiset for re-ordering']),
     assumptions=['approximate=False for ExtendedSpatialHashNNPS (the approximate mode is documented as inexact)',
                  'number of cells bounded (<= ~2**20); an explicit RuntimeError refusing a huge grid is counted, not a wrong answer',
@@ -46,7 +47,7 @@ PROPS = {
 }
 PROBES = {
     'C01': ['cell_occupied_in_one_array_only', 'particle_on_cell_face', 'degenerate_extent', 'cross_array_pair',
-            'cache_lazy_fill', 'cache_find_all_threads_gt1', 'implicit_context_switch', 'reorder_then_query',
+            'cache_lazy_fill', 'cache_fill_simulated_tid', 'cache_find_all_threads_gt1', 'implicit_context_switch', 'reorder_then_query',
             'empty_array_present', 'coincident_points', 'far_from_origin', 'h_decades', 'refused_too_many_cells',
             'band_pairs', 'added_particles', 'removed_particles', 'cache_toggled'],
     'C17': ['reorder_with_nonlocal_tags', 'reorder_strided', 'repeated_reorder', 'reorder_then_query', 'reorder_empty_array'],
@@ -177,7 +178,7 @@ def gen(t, prop, tier):
             op['idx'] = [t.int(0, 200) for _ in range(t.int(1, 10))]
         ops.append(op)
     qmodes = [dict(mode=t.wchoice([('cached', 5), ('nocache', 2), ('find_all', 3)]),
-                   ctx=t.wchoice([('explicit', 3), ('implicit', 2)]), order_seed=t.int(0, 1 << 20))
+                   ctx=t.wchoice([('explicit', 3), ('implicit', 2)]), order_seed=t.int(0, 1 << 20), sim_tids=int(t.bool(0.5)))
               for _ in range(len(ops) + 1)]
     return dict(dim=dim, cls=cls, knobs=knobs, cache=int(t.bool(0.6)) if cls != 'dbox' else 0, sort_gids=int(t.bool(0.4)), fixed_h=fixed_h,
                 radius_scale=t.choice([2.0, 2.0, 3.0, 1.0, 2.5]), nthreads=t.choice([1, 1, 2, 3, 4, 8]),
@@ -356,6 +357,7 @@ def _records(pa):
 def execute(sc, prop):
     from cyarray.api import UIntArray, LongArray
     from pysph.base.nnps_base import set_number_of_threads
+    from pysph.base.nnps_base import _verif_set_tid as _set_tid
     try:
         dim = int(sc['dim'])
         cls = sc['cls']
@@ -471,13 +473,21 @@ def execute(sc, prop):
                     probe('cache_find_all_threads_gt1')
             order = list(range(nd))
             rng.shuffle(order)
+            sim_tids = bool(qm.get('sim_tids')) and use_cache[0] and mode == 'cached' and nthreads > 1
             for i in order:
                 if mode == 'nocache' or not use_cache[0]:
                     nnps.get_nearest_particles_no_cache(s, d, i, nb, False)
                 else:
                     if mode == 'cached':
                         probe('cache_lazy_fill')
+                    if sim_tids:
+                        # hook H2: the lazy fill of this destination happens "on" a drawn simulated thread, so the entries
+                        # of one (dst, src) cache end up spread over the per-thread arrays in a seeded order
+                        _set_tid(int(rng.randint(nthreads)))
+                        probe('cache_fill_simulated_tid')
                     nnps.get_nearest_particles(s, d, i, nb)
+                    if sim_tids:
+                        _set_tid(-1)
                 got = nb.get_npy_array().copy()
                 if len(got):
                     nonempty[0] += 1
